@@ -1725,8 +1725,12 @@ class Models:
                 for r in self.collect_generator(ex, x, st, node):
                     out.append(Val(list(enumerate(r.v)), r.st) if isinstance(r, Val) else r)
                 return out
+            if (isinstance(x, SSeq) or hasattr(x, "__pyvc_symbolic_iter__")) and len(args) == 1 and not kwargs:
+                from .abstractions import SymEnumerated
+
+                return [Val(SymEnumerated(self, x), st)]
             if isinstance(x, SSeq) or hasattr(x, "__pyvc_symbolic_iter__"):
-                ex.unsupported(node, "enumerate over symbolic sequence")
+                ex.unsupported(node, "enumerate(start=...) over symbolic sequence")
             return [Val(list(enumerate(self.iter_concrete(ex, x, node), *args[1:])), st)]
 
         M[enumerate] = m_enumerate
